@@ -5,6 +5,7 @@ go 1.24.0
 require (
 	github.com/arr-ai/arrai v0.0.0
 	github.com/arr-ai/wbnf v0.38.0
+	github.com/sirupsen/logrus v1.9.4
 	github.com/spf13/afero v1.11.0
 	gopkg.in/yaml.v3 v3.0.1
 )
@@ -23,7 +24,6 @@ require (
 	github.com/richardlehane/mscfb v1.0.4 // indirect
 	github.com/richardlehane/msoleps v1.0.3 // indirect
 	github.com/russross/blackfriday/v2 v2.1.0 // indirect
-	github.com/sirupsen/logrus v1.9.4 // indirect
 	github.com/stretchr/testify v1.10.0 // indirect
 	github.com/urfave/cli/v2 v2.2.0 // indirect
 	github.com/xuri/efp v0.0.0-20240408161823-9ad904a10d6d // indirect
